@@ -18,43 +18,58 @@ SMALL = [1, 7, 8, 9]
 KINDS = ["bs", "8", "16", "32", "64"]           # etl::bitset<N>, basic_bitset<N, uintK_t>
 WORD = {"bs": 64, "8": 8, "16": 16, "32": 32, "64": 64}
 
-RULE = ("histories over four live objects of one type; widths {1,7,8,9,31,32,33,63,64,65,127,128,129} x {etl::bitset, "
+RULE = ("histories over four live objects of one type; widths {1,7,8,9,31,32,33,63,64,65,127,128,129} (and 0) x {etl::bitset, "
         "basic_bitset with uint8/16/32/64 words}.  Exhaustive for N in {1,7,8,9}: every value (from unsigned long long) x "
         "every single operation with every position / bool / second operand from a pattern set "
-        "(set, reset, flip whole and single, proxy assign/flip/copy, &= |= ^= & | ^ ~, ==, to_ulong/to_ullong, to_string), and "
-        "every string over {zero,one} up to length 4 x every pos x every n (incl. npos) for the string constructors; "
+        "(set with and without the value argument, reset, flip whole and single, proxy assign/flip/copy, &= |= ^= & | ^ ~, ==, "
+        "to_ulong/to_ullong, to_string with 0, 1 and 2 arguments), and every string over {zero,one} up to length 4 x every pos x "
+        "every n (incl. npos) x every argument-list length (str | str,pos | str,pos,n | str,pos,n,zero | all five; cstr | cstr,n | "
+        "cstr,n,zero | all four) for the string constructors; strings longer than the bitset: every string of length N+1 at "
+        "N = 7 and 8 (pos 0..2, n in {N-1,N,N+1,npos}), 400 seeded strings of length N+1..N+3 at N = 9, random ones at every width; "
+        "character types wchar_t, char8_t, char16_t, char32_t (harness instantiations at N in {0,1,9,64,65,129}): every string up "
+        "to length 3 over four (zero,one) pairs per type, some differing only above the low byte / low 16 bits, then to_string "
+        "in the same type; bitset<0> / basic_bitset<0,W>: one scripted case per storage kind with every member that takes no "
+        "position; to_ulong/to_ullong at N in {65,127,128,129} with a bit set and cleared at 64, 65, N-2, N-1 (fits / overflow); "
         "beyond that seeded random histories up to length 60 mixing whole-set, single-bit, binary and constructor "
         "operations with positions biased to 0, N-1 and word boundaries +-1.  After EVERY mutating line the target's full "
-        "observable state (all bits through test/operator[] const, count, all, any, none) is compared.  A case is "
+        "observable state (all bits through test/operator[] const, count, all, any, none) is compared.  The harness is built with "
+        "TETL_ENABLE_CONTRACT_CHECKS: every TETL_PRECONDITION is live; a contract failure aborts the case except inside "
+        "to_ulong/to_ullong, where it is reported as `overflow`.  A case is "
         "non-trivial when its history reaches at least two different states one of which has both a set and a clear bit "
-        "(or N = 1); distinct = distinct case text.")
+        "(or N = 1; never for N = 0); distinct = distinct case text.")
 ASSUMPTIONS = ["std::bitset of libstdc++ 12 is the reference for spec validation (R2)",
                "preconditions excluded from generation: pos < size() for single-bit members; string constructors: pos <= size(), "
                "every used character is zero or one, no NUL inside a C string, n <= length or npos for the pointer overload "
-               "(std throws for the first two, the rest is UB in both)",
-               "popcount is a compiler builtin on the run-time path: modelled as the number of one bits (property C14 owns it)",
-               "unsigned long and unsigned long long are 64 bits (LP64)"]
+               "(std throws for the first two, the rest is UB in both).  NOT excluded: to_ulong/to_ullong on a value that does not "
+               "fit (std: overflow_error; tetl: failed contract, observed through the assert handler)",
+               "popcount on the run-time path is a compiler builtin, trusted to return the number of one bits; the portable "
+               "loop etl::detail::popcount_fallback (the constant-evaluated path) is proved to return that number "
+               "(C17.Props.popcount_code, through property C14's model of the loop)",
+               "unsigned long and unsigned long long are 64 bits (LP64)",
+               "a character is modelled by its code unit value (a natural number) and Traits::eq by equality: exact for "
+               "etl::char_traits<char|wchar_t|char8_t|char16_t|char32_t>; user-supplied traits are outside the model"]
 TRUSTED = ["hand model Tetl/C17/Model.lean tied to the source by the correspondence run (R1) on every run",
            "spec Tetl/C17/Spec.lean (bit positions -> Bool) validated against libstdc++ std::bitset (R2) on every run"]
 _P = "Tetl.C17.Props."
 _H = [_P + "step_rep", _P + "run_refines", _P + "padding_inv_history", _P + "run_observers"]
 THEOREMS = {
     "new": [_P + "init_rep"], "set_all": [_P + "setAll_rep"] + _H, "reset_all": [_P + "resetAll_rep"] + _H,
-    "flip_all": [_P + "flipAll_rep"] + _H, "set": [_P + "set_rep", _P + "uncheckedSet_rep"] + _H,
+    "flip_all": [_P + "flipAll_rep"] + _H, "set": [_P + "set_rep", _P + "uncheckedSet_rep", _P + "setD_rep"] + _H,
     "reset": [_P + "reset_rep", _P + "uncheckedReset_rep"] + _H, "flip": [_P + "flip_rep", _P + "uncheckedFlip_rep"] + _H,
     "ref_assign": [_P + "refAssign_rep"] + _H, "ref_flip": [_P + "refFlip_rep"] + _H,
     "ref_copy": [_P + "refGet_eq", _P + "refAssign_rep"] + _H,
     "and": [_P + "andAssign_rep"] + _H, "or": [_P + "orAssign_rep"] + _H, "xor": [_P + "xorAssign_rep"] + _H,
     "band": [_P + "andAssign_rep"] + _H, "bor": [_P + "orAssign_rep"] + _H, "bxor": [_P + "xorAssign_rep"] + _H,
     "assign": _H, "not": [_P + "not_rep"] + _H, "from_ull": [_P + "fromUll_rep"] + _H,
-    "from_str": [_P + "fromString_rep", _P + "fromCstr_rep"] + _H,
+    "from_str": [_P + "fromString_rep", _P + "fromCstr_rep", _P + "fromStringD_rep", _P + "fromCstrD_rep"] + _H,
     "probe": [_P + "test_eq", _P + "uncheckedTest_eq", _P + "getConst_eq", _P + "refGet_eq", _P + "refNot_eq"],
-    "eq": [_P + "eq_eq"], "to_ullong": [_P + "toUnsigned_partial", _P + "toUnsigned_counterexample"],
-    "to_ulong": [_P + "toUnsigned_partial", _P + "toUnsigned_counterexample"], "to_string": [_P + "toStr_eq"],
+    "eq": [_P + "eq_eq"], "to_ullong": [_P + "toUnsigned_eq", _P + "toUnsigned_overflow", _P + "toUnsigned_narrow"],
+    "to_ulong": [_P + "toUnsigned_eq", _P + "toUnsigned_overflow", _P + "toUnsigned_narrow"],
+    "to_string": [_P + "toStr_eq", _P + "toStrD_eq"],
 }
 SEARCH_CAP = 20000
 
-F_WIDE = "F-C17-to-ullong-wide-absent"
+F_WIDE = "F-C17-to-ullong-wide-absent"      # fixed (to_ulong/to_ullong exist for every width): no class is excluded any more
 
 
 def hl(v):
@@ -91,6 +106,7 @@ def single_op_case(n, kind, v, rnd):
         for b in (0, 1):
             fresh("set o=2 pos=%d v=%d" % (p, b))
             fresh("ref_assign o=2 pos=%d v=%d" % (p, b))
+        fresh("set o=2 pos=%d" % p)                      # set(pos) / unchecked_set(pos): value defaulted
         fresh("reset o=2 pos=%d" % p)
         fresh("flip o=2 pos=%d" % p)
         fresh("ref_flip o=2 pos=%d" % p)
@@ -110,8 +126,14 @@ def single_op_case(n, kind, v, rnd):
         L.append("not o=3 src=0")
         L.append("to_ullong o=0")
         L.append("to_ulong o=0")
-        L.append("to_string o=0 cap=%d" % n)
+        L.append("to_string o=0 cap=%d" % n)                                        # to_string<N>()
+        L.append("to_string o=0 cap=%d zero=%d" % (n + 5, rnd.choice([42, 79, 200])))   # to_string<N+5>(zero)
         L.append("to_string o=0 cap=%d zero=%d one=%d" % (n + 5, rnd.choice([48, 42, 79]), rnd.choice([49, 88, 200])))
+        if n in WIDE_CT:
+            ct = CTS[v % len(CTS)]
+            z, o = CT_PAIRS[ct][v % len(CT_PAIRS[ct])]
+            L.append("to_string o=0 cap=%d ct=%s" % (n, ct))
+            L.append("to_string o=0 cap=%d zero=%d one=%d ct=%s" % (n + 5, z, o, ct))
     return L
 
 
@@ -124,29 +146,144 @@ def all_strings(maxlen, z, o):
     return out
 
 
-def str_line(o, s, pos, n, z=None, one=None, ov="sv"):
-    ln = "from_str o=%d s=%s pos=%s n=%s" % (o, fmt_list(s), pos, n)
+def str_line(o, s, pos=None, n=None, z=None, one=None, ov="sv", ct="c"):
+    """an argument that is None is NOT passed (trailing arguments only): the line carries exactly the
+    arguments of the call"""
+    ln = "from_str o=%d s=%s" % (o, fmt_list(s))
+    if pos is not None:
+        ln += " pos=%s" % pos
+    if n is not None:
+        ln += " n=%s" % n
     if z is not None:
-        ln += " zero=%d one=%d" % (z, one)
+        ln += " zero=%d" % z
+    if one is not None:
+        ln += " one=%d" % one
     if ov != "sv":
         ln += " ov=" + ov
+    if ct != "c":
+        ln += " ct=" + ct
     return ln
 
 
+def ctor_lines(L, s, zz, oo, explicit, ct="c"):
+    """every pos x every n for the string s over {zz, oo}; explicit: zero/one passed, else both defaulted
+    (then zz, oo = 48, 49); plus the shorter argument lists"""
+    z, o = (zz, oo) if explicit else (None, None)
+    for pos in range(len(s) + 1):
+        for cnt in list(range(len(s) + 2)) + ["npos"]:
+            L.append(str_line(0, s, pos, cnt, z, o, ct=ct))
+        if not explicit:
+            L.append(str_line(0, s, pos, ct=ct))                       # bitset(str, pos)
+    for cnt in list(range(len(s) + 1)) + ["npos"]:
+        L.append(str_line(1, s, None, cnt, z, o, "cstr", ct))
+    if not explicit:
+        L.append(str_line(0, s, ct=ct))                                # bitset(str)
+        L.append(str_line(1, s, ov="cstr", ct=ct))                     # bitset(cstr)
+
+
 def string_ctor_cases(n, rnd):
-    """every string up to length 4 x every pos x every n, view and pointer overloads"""
+    """every string up to length 4 (and, at N = 7, every string of length N + 1) x every pos x every n, view and
+    pointer overloads, all argument-list lengths"""
     cases = []
-    for (z, o) in ((None, None), (65, 66)):
-        zz, oo = (48, 49) if z is None else (z, o)
+    for (zz, oo, explicit) in ((48, 49, False), (65, 66, True)):
         L = ["new N=%d w=bs" % n]
         for s in all_strings(4, zz, oo):
-            for pos in range(len(s) + 1):
-                for cnt in list(range(len(s) + 2)) + ["npos"]:
-                    L.append(str_line(0, s, pos, cnt, z, o))
-            for cnt in list(range(len(s) + 1)) + ["npos"]:
-                L.append(str_line(1, s, 0, cnt, z, o, "cstr"))
+            ctor_lines(L, s, zz, oo, explicit)
         cases.append(Case(L, "str-exh/N%d" % n))
+    # only `zero` passed (one defaulted to '1'): strings over {zero, 49}
+    L = ["new N=%d w=bs" % n]
+    for s in all_strings(3, 97, 49):
+        for pos in range(len(s) + 1):
+            for cnt in (0, len(s), "npos"):
+                L.append(str_line(0, s, pos, cnt, 97))
+        L.append(str_line(1, s, None, len(s), 97, None, "cstr"))
+        L.append(str_line(1, s, None, "npos", 97, None, "cstr"))
+    cases.append(Case(L, "str-exh/N%d" % n))
+    # strings longer than the bitset: every string of length N + 1 (N <= 8), a seeded sample of N + 1 .. N + 3 beyond
+    if n in (7, 8):
+        L = ["new N=%d w=bs" % n]
+        m = n + 1
+        for v in range(1 << m):
+            s = [49 if (v >> (m - 1 - i)) & 1 else 48 for i in range(m)]
+            for pos in (0, 1, 2):
+                for cnt in (n - 1, n, m, "npos"):
+                    L.append(str_line(0, s, pos, cnt))
+            L.append(str_line(1, s, None, "npos", ov="cstr"))
+            L.append(str_line(1, s, None, m, 48, 49, "cstr"))
+        cases.append(Case(L, "str-long/N%d" % n))
+    elif n == 9:
+        L = ["new N=%d w=bs" % n]
+        for _ in range(400):
+            m = rnd.choice([n + 1, n + 2, n + 3])
+            s = [rnd.choice((48, 49)) for _ in range(m)]
+            for pos in (0, 1, rnd.randint(0, m)):
+                for cnt in (n, m, "npos"):
+                    L.append(str_line(0, s, pos, cnt))
+            L.append(str_line(1, s, None, "npos", ov="cstr"))
+        cases.append(Case(L, "str-long/N%d" % n))
     return cases
+
+
+# character types other than char (harness: instantiated at the widths WIDE_CT)
+CTS = ["w", "u8", "u16", "u32"]
+WIDE_CT = (0, 1, 9, 64, 65, 129)
+# (zero, one) pairs per character type; several differ only ABOVE the low byte / low 16 bits, so that a
+# comparison or a copy that narrows the character is visible
+CT_PAIRS = {
+    "c": [(48, 49), (65, 66), (120, 200), (49, 48)],
+    "u8": [(48, 49), (0xC3, 0xA9), (49, 48), (1, 255)],
+    "u16": [(48, 49), (0x0141, 0x0241), (0x3A9, 0x3C9), (0xFFFF, 0x00FF)],
+    "u32": [(48, 49), (0x10041, 0x20041), (0x1F600, 0x1F601), (0x41, 0x10041)],
+    "w": [(48, 49), (0x10041, 0x20041), (0x3A9, 0x103A9), (0x7FFFFFFF, 0x7FFF)],
+}
+
+
+def char_type_cases(n, rnd):
+    """string constructors / to_string for wchar_t, char8_t, char16_t, char32_t: every string up to length 3 over
+    each (zero, one) pair x every pos x every n, all argument-list lengths, then to_string in the same type"""
+    cases = []
+    for ct in CTS:
+        L = ["new N=%d w=bs" % n]
+        for (zz, oo) in CT_PAIRS[ct]:
+            explicit = (zz, oo) != (48, 49)
+            for s in all_strings(3, zz, oo):
+                ctor_lines(L, s, zz, oo, explicit, ct)
+            s = [rnd.choice((zz, oo)) for _ in range(n + 2)]
+            L.append(str_line(2, s, 0, "npos", zz, oo, ct=ct))
+            L.append(str_line(3, s, None, "npos", zz, oo, "cstr", ct))
+            L.append("eq o=2 rhs=3")
+            L.append("to_string o=2 cap=%d ct=%s" % (n, ct))
+            L.append("to_string o=2 cap=%d zero=%d ct=%s" % (n + 5, zz, ct))
+            L.append("to_string o=2 cap=%d zero=%d one=%d ct=%s" % (n + 5, zz, oo, ct))
+        cases.append(Case(L, "str-ct/N%d/%s" % (n, ct)))
+    return cases
+
+
+def zero_width_case(kind, rnd):
+    """bitset<0> / basic_bitset<0, W>: no storage word; every member without a position argument"""
+    bs = kind == "bs"
+    L = ["new N=0 w=%s" % kind]
+    for o in range(4):
+        L += ["set_all o=%d" % o, "flip_all o=%d" % o, "from_ull o=%d %s" % (o, hl(rnd.getrandbits(64))), "reset_all o=%d" % o]
+    for op in ("and", "or", "xor"):
+        L.append("%s o=0 rhs=1" % op)
+    for op in ("band", "bor", "bxor"):
+        L.append("%s o=3 a=0 b=1" % op)
+    L += ["assign o=2 src=0", "eq o=0 rhs=2", "eq o=1 rhs=3"]
+    if bs:
+        L += ["not o=3 src=0", "to_ullong o=0", "to_ulong o=3", "to_string o=0 cap=0", "to_string o=0 cap=5",
+              "to_string o=3 cap=5 zero=65 one=66", "to_string o=3 cap=0 zero=65"]
+        for s in all_strings(2, 48, 49):
+            ctor_lines(L, s, 48, 49, False)
+        for ct in CTS:
+            zz, oo = CT_PAIRS[ct][1]
+            for s in all_strings(2, zz, oo):
+                L.append(str_line(0, s, 0, "npos", zz, oo, ct=ct))
+                L.append(str_line(1, s, None, "npos", zz, oo, "cstr", ct))
+            L.append("to_string o=0 cap=0 ct=%s" % ct)
+            L.append("to_string o=1 cap=5 zero=%d one=%d ct=%s" % (zz, oo, ct))
+        L += ["flip_all o=0", "to_ullong o=0", "eq o=0 rhs=1"]
+    return L
 
 
 def rand_value(n, rnd):
@@ -165,8 +302,8 @@ def rand_value(n, rnd):
     return rnd.getrandbits(64)
 
 
-def rand_string(n, rnd):
-    z, o = rnd.choice([(48, 49), (48, 49), (65, 66), (120, 200), (49, 48)])
+def rand_string(n, rnd, ct="c"):
+    z, o = rnd.choice(CT_PAIRS[ct] + [(48, 49)])
     ln = rnd.choice([0, 1, 2, max(n - 1, 0), n, n, n + 1, n + 3, rnd.randint(0, n + 4)])
     r = rnd.random()
     if r < 0.15:
@@ -198,7 +335,9 @@ def random_history(n, kind, rnd, length):
             L.append("%s o=%d" % (rnd.choice(whole), o))
         elif r < 0.34:
             k = rnd.choice(["set", "reset", "flip", "ref_assign", "ref_flip"])
-            if k in ("set", "ref_assign"):
+            if k == "set" and rnd.random() < 0.25:
+                L.append("set o=%d pos=%d" % (o, pos()))
+            elif k in ("set", "ref_assign"):
                 L.append("%s o=%d pos=%d v=%d" % (k, o, pos(), rnd.randint(0, 1)))
             else:
                 L.append("%s o=%d pos=%d" % (k, o, pos()))
@@ -220,22 +359,34 @@ def random_history(n, kind, rnd, length):
             if r < 0.88:
                 L.append("not o=%d src=%d" % (o, obj()))
             elif r < 0.94:
-                s, z, one = rand_string(n, rnd)
+                ct = rnd.choice(["c", "c"] + CTS) if n in WIDE_CT else "c"
+                s, z, one = rand_string(n, rnd, ct)
+                # how many trailing arguments are passed; the defaulted characters need a string over {'0','1'}
+                dflt_ok = (z, one) == (48, 49)
                 if rnd.random() < 0.3:
                     cnt = rnd.choice(["npos"] + list(range(len(s) + 1)))
-                    L.append(str_line(o, s, 0, cnt, None if (z, one) == (48, 49) and rnd.random() < 0.5 else z, one, "cstr"))
+                    na = rnd.choice([1, 2, 4]) if dflt_ok else 4
+                    cnt = None if na < 2 else cnt
+                    L.append(str_line(o, s, None, cnt, z if na == 4 else None, one if na == 4 else None, "cstr", ct))
                 else:
                     p = rnd.choice([0, 0, rnd.randint(0, len(s)), len(s)])
                     cnt = rnd.choice(["npos", "npos", rnd.randint(0, len(s) + 2), n, max(len(s) - p, 0)])
-                    L.append(str_line(o, s, p, cnt, None if (z, one) == (48, 49) and rnd.random() < 0.5 else z, one))
+                    na = rnd.choice([1, 2, 3, 5, 5]) if dflt_ok else 5
+                    L.append(str_line(o, s, p if na >= 2 else None, cnt if na >= 3 else None, z if na == 5 else None,
+                                      one if na == 5 else None, "sv", ct))
             elif r < 0.97:
                 L.append("%s o=%d" % (rnd.choice(["to_ullong", "to_ulong"]), o))
             else:
-                if rnd.random() < 0.5:
-                    L.append("to_string o=%d cap=%d" % (o, rnd.choice([n, n + 5])))
+                ct = rnd.choice(["c", "c"] + CTS) if n in WIDE_CT else "c"
+                tail = "" if ct == "c" else " ct=" + ct
+                z, one = rnd.choice(CT_PAIRS[ct])
+                k = rnd.randrange(3)
+                if k == 0:
+                    L.append("to_string o=%d cap=%d%s" % (o, rnd.choice([n, n + 5]), tail))
+                elif k == 1:
+                    L.append("to_string o=%d cap=%d zero=%d%s" % (o, rnd.choice([n, n + 5]), z, tail))
                 else:
-                    L.append("to_string o=%d cap=%d zero=%d one=%d" % (o, rnd.choice([n, n + 5]), rnd.choice([48, 42, 79]),
-                                                                        rnd.choice([49, 88, 200])))
+                    L.append("to_string o=%d cap=%d zero=%d one=%d%s" % (o, rnd.choice([n, n + 5]), z, one, tail))
         else:
             L.append("%s o=%d" % (rnd.choice(whole), o))
     return L
@@ -266,10 +417,21 @@ def generate(tier, seed):
     for n in SMALL:
         for c in string_ctor_cases(n, rnd):
             add(c.lines, c.tag)
-    # 3. the known API gap: to_ulong / to_ullong on sets wider than 64 bits
+    for n in (1, 9):
+        for c in char_type_cases(n, rnd):
+            add(c.lines, c.tag)
+    # 3. to_ulong / to_ullong on sets wider than 64 bits: the value fits / does not fit (std: overflow_error; tetl:
+    #    the "value fits" contract fails), on both sides of every boundary bit
     for n in (65, 127, 128, 129):
-        add(["new N=%d w=bs" % n, "from_ull o=0 %s" % hl(rnd.getrandbits(64)), "to_ullong o=0", "to_ulong o=0",
-             "set o=0 pos=%d v=1" % (n - 1), "to_ullong o=0"], "wide-to-ullong/N%d" % n)
+        L = ["new N=%d w=bs" % n, "from_ull o=0 %s" % hl(rnd.getrandbits(64)), "to_ullong o=0", "to_ulong o=0"]
+        for p in sorted({64, 65 if n > 65 else 64, n // 2 + 32, n - 2, n - 1}):
+            L += ["set o=0 pos=%d v=1" % p, "to_ullong o=0", "to_ulong o=0", "reset o=0 pos=%d" % p, "to_ullong o=0"]
+        L += ["set o=0 pos=63 v=1", "to_ullong o=0", "flip_all o=0", "to_ulong o=0", "reset_all o=0", "to_ullong o=0",
+              "set_all o=0", "to_ullong o=0"]
+        add(L, "wide-to-ullong/N%d" % n)
+    # 3b. bitset<0>
+    for kind in KINDS:
+        add(zero_width_case(kind, rnd), "zero/N0/%s" % kind)
     # 4. random histories at every width and storage kind
     per = 1200 if thorough else 30
     for n in WIDTHS:
@@ -290,6 +452,8 @@ def nontrivial(case, rows):
     n = width_of(case)
     states = set()
     mixed = n == 1
+    if n == 0:
+        return False        # bitset<0> has a single state: executed and compared, never counted as non-trivial
     for r in rows:
         s = r.spec
         i = s.find("s=")
@@ -303,11 +467,7 @@ def nontrivial(case, rows):
 
 
 def classify(case, k, row):
-    """known finding F_WIDE: the member does not exist for Bits > 64 (requires-clause); same predicate as the
-    hypothesis `N <= 64` of C17.Props.toUnsigned_partial."""
-    op = case.lines[k].split(" ", 1)[0]
-    if op in ("to_ullong", "to_ulong") and width_of(case) > 64:
-        return F_WIDE
+    """no known (unrepaired) finding is left for C17: every impl != spec is a violation"""
     return None
 
 
@@ -321,20 +481,28 @@ TECHNIQUE = ("Lean 4 proof: padding invariant + refinement of the word-array mod
              "correspondence run")
 LEVEL_TEXT = ("A word-array model of basic_bitset/bitset (BitVec words, checked reads/writes, the source's masks, loops and "
               "preconditions; width N and word size 2^k are parameters) is proved in Lean 4 to refine the bit-position "
-              "specification of std::bitset for EVERY N >= 1, every word size and every valid history of unbounded length: no "
-              "operation ever returns an error (no out-of-range word access, no over-wide shift), the padding bits of the last "
-              "word stay zero, and the observers return the specified values.  The model is tied to the current source on every "
-              "run by executing model and implementation (ASan/UBSan) on the same histories: exhaustive for N in {1,7,8,9} x 5 "
-              "storage kinds (every value x every single operation), random histories to length 60 at the 13 widths around the "
-              "word boundaries; the spec is validated against libstdc++ std::bitset on the same lines.")
+              "specification of std::bitset for EVERY N >= 0 (bitset<0> included), every word size and every valid history of "
+              "unbounded length: no operation ever returns an error (no out-of-range word access, no over-wide shift, no failed "
+              "contract), the padding bits of the last word stay zero, and the observers return the specified values; "
+              "to_ulong/to_ullong are proved for every width in both directions (value returned when it fits in 64 bits, contract "
+              "failure exactly when std::bitset throws overflow_error); calls that leave trailing arguments to their defaults "
+              "(set(pos), to_string(), to_string(zero), the shorter argument lists of both string constructors) are separate "
+              "model operations with their own theorems; characters are code unit values, so the string members are proved for "
+              "every character type.  The model is tied to the current source on every "
+              "run by executing model and implementation (ASan/UBSan, contract checks on) on the same histories: exhaustive for N in "
+              "{1,7,8,9} x 5 storage kinds (every value x every single operation), random histories to length 60 at the 13 widths "
+              "around the word boundaries, N = 0, and wchar_t/char8_t/char16_t/char32_t instantiations at six widths; the spec is "
+              "validated against libstdc++ std::bitset on the same lines.")
 LEVEL_NOTE = ("Trusted: Lean kernel + propext/Classical.choice/Quot.sound; the hand model's fidelity outside the explored "
-              "histories; popcount builtin = number of one bits; g++-12/ASan; libstdc++ as oracle for spec validation. Members "
-              "listed in coverage.correspondence_only have no theorem yet and are covered by the differential run only.")
+              "histories; the popcount builtin returns the number of one bits (the portable loop is proved); g++-12/ASan; "
+              "libstdc++ as oracle for spec validation. Items listed in coverage.correspondence_only have no theorem and are "
+              "covered by the differential run only.")
 # covered by the differential run only (no Lean theorem)
 CORRESPONDENCE_ONLY = [
-    "to_ulong/to_ullong for Bits > 64: the member does not exist (known finding F-C17-to-ullong-wide-absent)",
-    "defaulted arguments (set(pos) with value defaulted, to_string() with default characters, string constructors with pos/n/zero/one "
-    "defaulted): same bodies as the proved members, the defaults themselves are exercised by the harness only",
-    "popcount builtin (modelled as the number of one bits; the loop fallback belongs to C14)",
-    "character types other than char for the string constructors / to_string (not instantiated)",
+    "popcount on the run-time path: __builtin_popcount{,l,ll} (trusted to return the number of one bits; the portable loop of the "
+    "constant-evaluated path is proved: C17.Props.popcount_code)",
+    "that the default arguments written in bitset.hpp are 0 / npos / CharT('0') / CharT('1') / true (the values the model "
+    "operations setD, fromStringD, fromCstrD, toStrD carry and the theorems use): read off the source, exercised by the harness "
+    "calling every shorter argument list",
+    "user-supplied Traits (Traits::eq other than ==) and character types other than char, wchar_t, char8_t, char16_t, char32_t",
 ]
